@@ -56,6 +56,9 @@ def main():
     only = only[0] if only else None
     force = [a.split("=", 1)[1].upper().split(",") for a in args if a.startswith("--check=")]
     force = force[0] if force else None
+    seedarg = [a.split("=", 1)[1] for a in args if a.startswith("--seed=")]
+    seedarg = seedarg[0] if seedarg else "1"
+    outarg = [a.split("=", 1)[1] for a in args if a.startswith("--out=")]
     ids = [a.upper() for a in args if not a.startswith("--")]
     out = []
     if seeded:
@@ -89,7 +92,7 @@ def main():
                     continue
                 f.write_text(s.replace(m["old"], m["new"], 1))
             for pid in props:
-                rc, viol, tail = run_check(pid, tree)
+                rc, viol, tail = run_check(pid, tree, seed=seedarg)
                 verdict = {0: "MISSED", 1: "DETECTED", 2: "BROKEN"}.get(rc, f"rc={rc}")
                 first = viol[0][:160] if viol else ""
                 print(f"{m['id']} [{pid}] {verdict} {first}", flush=True)
@@ -98,7 +101,9 @@ def main():
                 out.append({"mutation": m["id"], "property": pid, "verdict": verdict, "first": first})
         finally:
             drop_tree(tree)
-    if not ids and not only and not force:
+    if outarg:
+        pathlib.Path(outarg[0]).write_text(json.dumps(out, indent=1))
+    if not ids and not only and not force and not outarg:
         (VERIF / "tools" / ("seeded_results.json" if seeded else "mutation_results.json")).write_text(
             json.dumps(out, indent=1))
 
